@@ -57,6 +57,10 @@ package masswallet
 //@   at "if prevTx == nil { prevTx, err = h.walletMgr.chainFetcher.FetchTxBySha(..." assert prevTx == nil || outsWF(prevTx)
 //@   at "if prevTx == nil { fields := logging.LogFormat{..." assert prevTx == nil || outsWF(prevTx)
 //@   at "cache[txIn.PreviousOutPoint.Hash] = prevTx" assert outsWF(prevTx)
+// inputs and outputs are recorded as relevant only for wallets that are ready: the block handler keeps a balance entry
+// for exactly those wallets, and AddCredits / the debit path dereference that entry
+//@   at "rec.HasBindingIn = ps.IsBinding()" assert[C19] has(readyWallets, ma.Account())
+//@   at "rec.HasBindingOut = ps.IsBinding()" assert[C19] has(readyWallets, ma.Account())
 //@   at "continue"#1 assert[C01] !has(recInCurBlk, strOf(txIn.PreviousOutPoint.Hash[:]))
 //@   loop#1 invariant recsWF(recInCurBlk)
 //@   loop#1 invariant cacheWF(cache)
@@ -308,3 +312,17 @@ package masswallet
 //@   closure#1 only SyncedTo
 //@   closure#1 loop#1 skip
 //@   closure#1 at "m, err := w.utxoStore.ScriptAddressBalance(tx, scriptSet, confs,..." assert[C17] syncedTo != nil && syncedTo.Height == ghostu64("syncHeightOf", tx)
+
+// ---- C18: an import step that fails never reports completion, so the worker keeps the task and repeats the step
+// (the scan transaction sets the completion flag before its last writes; a late storage error must not leak it)
+//@ func (*NtfnsHandler).asyncImport
+//@   props C18
+//@   nopanic off
+//@   requires h != nil && h.walletMgr != nil && h.walletMgr.ksmgr != nil
+//@   modifies *
+//@   only GetAddrManagerByAccountID
+//@   opaque suspend resume
+//@   loop#1 skip
+//@   loop#2 skip
+// (an unknown wallet id ends the task at once: nothing to retry)
+//@   ensures[C18] err != nil && old(ghostb("acctKnown", h.walletMgr.ksmgr, walletId)) ==> !finish
